@@ -50,12 +50,22 @@ P_KeyAgree(o) == Two(o) => \A c \in Cl(o) :
            \/ (~ClosedSeen(o, c) /\ o.cl[c].selfClosed = "WrongPasswordError")
     /\ (o.match /\ o.goal) => (o.cl[c].verifier # "-")
 
+\* ---- C19 (code entry): only one of allocate/set/input ever takes effect; a malformed code is rejected
+\*      before anything is sent.  codeApi: sequence of [call, res, sentAfter] in call order
+P_OnlyOneCode(o) == \A c \in Cl(o) :
+    LET api == o.cl[c].codeApi IN
+    /\ Cardinality({i \in 1..Len(api) : api[i].res = "ok"}) <= 1
+    /\ \A i, j \in 1..Len(api) : (i < j /\ api[i].res = "ok") => api[j].res \in {"OnlyOneCodeError", "KeyFormatError"}
+    /\ \A i \in 1..Len(api) : api[i].res = "KeyFormatError" => api[i].sentAfter = 0
+    /\ \A i \in 1..Len(api) : api[i].res \in {"ok", "OnlyOneCodeError", "KeyFormatError"}
+    /\ CountOf(EvOf(o, c), "code") <= 1
+
 Names == <<"NoInternal", "DocVerdict", "OnceEach", "Causal", "VersionsFirst", "LateGets", "InOrderOnce",
            "VersionsHonest", "AllDelivered", "KeyEstablished", "ClosedOnce", "NothingAfter", "Verdict", "Freed",
-           "CloseCompletes", "KeyAgree">>
+           "CloseCompletes", "KeyAgree", "OnlyOneCode">>
 Vector(o) == <<P_NoInternal(o), P_DocVerdict(o), P_OnceEach(o), P_Causal(o), P_VersionsFirst(o), P_LateGets(o),
                P_InOrderOnce(o), P_VersionsHonest(o), P_AllDelivered(o), P_KeyEstablished(o), P_ClosedOnce(o),
-               P_NothingAfter(o), P_Verdict(o), P_Freed(o), P_CloseCompletes(o), P_KeyAgree(o)>>
+               P_NothingAfter(o), P_Verdict(o), P_Freed(o), P_CloseCompletes(o), P_KeyAgree(o), P_OnlyOneCode(o)>>
 
 VARIABLE k
 Init == k = 0
